@@ -1125,10 +1125,63 @@ class BuiltinsMixin(object):
                         a2[i] = a.args[1] if tr else a.args[2]
                         out.extend(self.call_value(fv, a2, kw, q, node))
                     return out
+        # operator.methodcaller(name, *a)(obj) is obj.name(*a);
+        # operator.attrgetter(name)(obj) is obj.name
+        if isinstance(fv, App) and fv.op == 'global' and len(fv.args) == 3 \
+                and isinstance(fv.args[2], App) and \
+                fv.args[2].op in ('methodcaller', 'attrgetter'):
+            fv = fv.args[2]
+        if isinstance(fv, App) and fv.op == 'methodcaller' and \
+                len(args) == 1 and not kw:
+            out = []
+            for (q, m) in [(path, self.get_attr(args[0], fv.args[0].v,
+                                                  path, node))]:
+                out.extend(self.call_value(m, list(fv.args[1].items),
+                                           [(k.items[0].v, k.items[1])
+                                            for k in fv.args[2].items],
+                                           q, node))
+            return out
+        if isinstance(fv, App) and fv.op == 'attrgetter' and \
+                len(args) == 1 and not kw:
+            return [(path, self.get_attr(args[0], fv.args[0].v, path, node))]
+        if isinstance(fv, ERef) and fv.name == 'operator.methodcaller' and \
+                args and isinstance(args[0], Const) and \
+                isinstance(args[0].v, str):
+            return [(path, App('methodcaller', args[0], Tup(args[1:]),
+                               Tup(Tup((Const(k), v)) for k, v in kw)))]
+        if isinstance(fv, ERef) and fv.name == 'operator.attrgetter' and \
+                len(args) == 1 and isinstance(args[0], Const) and \
+                isinstance(args[0].v, str) and '.' not in args[0].v and \
+                not kw:
+            return [(path, App('attrgetter', args[0]))]
         r = self.hooks.call(self, fv, args, kw, path, node)
         if r is not None:
             return r
         if any(isinstance(a, App) and a.op == 'star' for a in args):
+            # f(*xs) with xs a list / tuple whose members are all known:
+            # the call with those members
+            flat = []
+            for a in args:
+                if isinstance(a, App) and a.op == 'star':
+                    src = a.args[0]
+                    items = None
+                    if isinstance(src, Tup):
+                        items = list(src.items)
+                    elif isinstance(src, Obj) and \
+                            path.heap[src.oid].kind == 'list' and \
+                            not getattr(path.heap[src.oid], 'havoc', False) \
+                            and all(pt.kind == 'elem' and not pt.gens and
+                                    not pt.conds
+                                    for pt in path.heap[src.oid].parts):
+                        items = [pt.val for pt in path.heap[src.oid].parts]
+                    if items is None:
+                        flat = None
+                        break
+                    flat.extend(items)
+                else:
+                    flat.append(a)
+            if flat is not None:
+                return self.call_value(fv, flat, kw, path, node)
             if isinstance(fv, BoundB) and len(args) == 1 and not kw and \
                     fv.name in ('intersection', 'union', 'difference') and \
                     self.is_setlike(fv.recv, path):
@@ -1170,6 +1223,14 @@ class BuiltinsMixin(object):
             # operator.and_(a, b) is a & b ...
             return self.binop(OPERATOR_FUNCS[fv.name](), args[0], args[1],
                               path, node)
+        if isinstance(fv, ERef) and not kw and (
+                (fv.name == 'itertools.chain.from_iterable' and
+                 len(args) == 1) or fv.name == 'itertools.chain'):
+            # chain.from_iterable(xss) is (x for xs in xss for x in xs)
+            xss = args[0] if fv.name.endswith('from_iterable') else Tup(args)
+            return self._synthetic_comp(
+                '[__ch_x for __ch_xs in __ch_xss for __ch_x in __ch_xs]',
+                {'__ch_xss': xss}, path, node)
         if isinstance(fv, ERef) and fv.name == 'functools.reduce' and \
                 len(args) in (2, 3) and not kw:
             return self.bi_reduce(args, path, node)
@@ -1897,6 +1958,25 @@ class BuiltinsMixin(object):
             return [(path, App('iter', recv))]
         sargs = tuple(self.snapshot(a, path) for a in args)
         if name in MUTATORS:
+            b = recv
+            while isinstance(b, App) and b.op in ('item', 'dictget') and \
+                    b.args:
+                b = b.args[0]
+            parts = ()
+            if isinstance(b, Coll):
+                parts = b.parts
+            elif isinstance(b, Obj) and path.heap[b.oid].kind in (
+                    'dict', 'list'):
+                parts = path.heap[b.oid].parts
+            via_get = isinstance(recv, App) and recv.op == 'dictget' and \
+                isinstance(b, (Coll, Obj))
+            if via_get or (b is not recv and any(
+                    pt.gens or pt.kind == 'spread' for pt in parts)):
+                # d[k].add(x) where d is a container made in this call and
+                # d[k] is not one definite member: the summary of d would
+                # silently miss the update
+                self.inconclusive('%s() on a member of a container that is '
+                                  'summarised by parts' % name, node)
             self.event(path, 'mutate', recv, name, sargs, node)
         else:
             self.event(path, 'mcall', recv, name, sargs, node)
@@ -2027,6 +2107,15 @@ class BuiltinsMixin(object):
             for p in h.parts:
                 if p.simple() and p.key == args[0]:
                     return [(path, p.val)]
+            # d.get(k[, default]) on a dict whose members are all known:
+            # the member itself (it may be modified through the result),
+            # one path per key the symbolic k can denote
+            fk = self.fork_on_key(recv, args[0], path) \
+                if len(args) in (1, 2) else None
+            if fk is not None:
+                dflt = args[1] if len(args) == 2 else Const(None)
+                return [(q, dflt if i is None else
+                         q.heap[recv.oid].parts[i].val) for (q, i) in fk]
             return [(path, App('dictget', self.snapshot(recv, path),
                                *args))]
         if name == 'copy':
@@ -2036,7 +2125,16 @@ class BuiltinsMixin(object):
         if name in ('union', 'intersection', 'difference') and args:
             op = {'union': ast.BitOr(), 'intersection': ast.BitAnd(),
                   'difference': ast.Sub()}[name]
-            return self.binop(op, recv, args[0], path, node)
+            cur = [(path, recv)]
+            for a in args:          # s.union(a, b, ..) folds every operand
+                nxt = []
+                for (q, acc) in cur:
+                    if isinstance(acc, Raise):
+                        nxt.append((q, acc))
+                    else:
+                        nxt.extend(self.binop(op, acc, a, q, node))
+                cur = nxt
+            return cur
         if name in ('__iter__',):
             return [(path, App('iter', self.snapshot(recv, path)))]
         if name in ('issubset', 'issuperset', 'isdisjoint', 'index',
